@@ -32,3 +32,114 @@ PROPS["C11"] = dict(
     assumptions=["bound variables are processed in arena (= declaration) order (checked by correspondence)",
                  "with validation on, a validator error may pre-empt the dedicated errors (allowed by the property; counted as skipped)"],
 )
+
+# ---------------------------------------------------------------------------------------------
+import os, subprocess, json, re, time, concurrent.futures
+
+VERIF = os.path.dirname(os.path.dirname(os.path.abspath(__file__)))
+BIN = os.path.join(VERIF, "target", "release")
+DRIVER = os.path.join(VERIF, "lean", ".lake", "build", "bin", "driver")
+
+
+def run_one_case_timed(case_line, opt, prop, timeout_s):
+    """one case in its own dump|driver pipeline under a hard timeout; returns (status, V-line fields or None, seconds)"""
+    t0 = time.time()
+    try:
+        d = subprocess.run([os.path.join(BIN, "dump"), "--opts", str(opt)], input=case_line + "\n", stdout=subprocess.PIPE,
+                           stderr=subprocess.PIPE, text=True, timeout=timeout_s)
+    except subprocess.TimeoutExpired:
+        return "timeout", None, time.time() - t0
+    dt = time.time() - t0
+    if d.returncode != 0:
+        return "dump-failed", d.stderr[-500:], dt
+    v = subprocess.run([DRIVER, prop], input=d.stdout, stdout=subprocess.PIPE, stderr=subprocess.PIPE, text=True)
+    for l in v.stdout.split("\n"):
+        if l.startswith("V|" + prop + "|"):
+            return "ok", l.split("|", 6), dt
+    return "no-verdict", v.stdout[-500:], dt
+
+
+def family_cases(specs):
+    lines = []
+    for fam, n in specs:
+        r = subprocess.run([os.path.join(BIN, "cases"), "family", fam, str(n)], stdout=subprocess.PIPE, text=True)
+        lines.append((fam, n, r.stdout.strip()))
+    return lines
+
+
+def extra_c20(pid, tier, seed, workdir, known, write_replay):
+    depths = [4, 8, 12, 16, 20, 24, 32, 48, 64] if tier == "quick" else [2, 4, 6, 8, 10, 12, 14, 16, 18, 20, 22, 24, 28, 32, 40, 48, 56, 64]
+    specs = [(f, n) for f in ("chain", "chainv", "diamond", "nested") for n in depths] + [("fanout", n) for n in (8, 64, 200)]
+    cases = family_cases(specs)
+    timeout_s = 20
+    results = []
+    with concurrent.futures.ThreadPoolExecutor(max_workers=8) as ex:
+        futs = {ex.submit(run_one_case_timed, line, 4, pid, timeout_s): (fam, n, line) for fam, n, line in cases}
+        for fu in concurrent.futures.as_completed(futs):
+            fam, n, line = futs[fu]
+            results.append((fam, n, line) + fu.result())
+    results.sort(key=lambda r: (r[0], r[1]))
+    viol, kn, notes, table = [], [], [], []
+    seen = set()
+    for fam, n, line, status, v, dt in results:
+        table.append({"family": fam, "depth": n, "status": status, "seconds": round(dt, 3),
+                      "verdict": (v[4] + " / " + v[5]) if status == "ok" else None})
+        detail = None
+        if status == "timeout":
+            detail = f"fail:wall-clock#timeout-{fam}: generation of family {fam} depth {n} did not finish in {timeout_s} s"
+        elif status != "ok":
+            detail = f"fail:harness#{status}: {v}"
+        elif v[5].startswith("fail:") or v[4].startswith("fail:"):
+            detail = v[5] if v[5].startswith("fail:") else v[4]
+        if detail:
+            m = re.match(r"fail:([A-Za-z0-9_.\-]+#[A-Za-z0-9_.\-:]+)", detail)
+            sig = m.group(1) if m else "unclassified"
+            kf = next((k for k in known if k["signature"] == sig), None)
+            if kf:
+                kn.append(f"KNOWN-FINDING: property={pid} {sig}: {kf.get('what', '')}")
+                continue
+            if sig in seen:
+                continue
+            seen.add(sig)
+            kind = "spec-fails-on-implementation" if (status == "timeout" or (status == "ok" and v[5].startswith("fail:"))) else "model-implementation-disagreement"
+            p = write_replay(pid, kind, line, 0, [4], detail, {"family": fam, "depth": n})
+            viol.append((p, "" if kind == "spec-fails-on-implementation" else " no-failing-input-found"))
+    return {"families": table, "family_timeout_s": timeout_s}, viol, kn, notes
+
+
+PROPS["C03"] = dict(
+    lean_modules=["WgslVerif.Props.C03"],
+    theorems=["WgslVerif.C03_visibility", "WgslVerif.C03_present", "WgslVerif.C03_unreached_none", "WgslVerif.C03_entryStages",
+              "WgslVerif.callsEarlierB_sound", "WgslVerif.reach_iff_reachS", "WgslVerif.entryUses_iff",
+              "WgslVerif.mem_callsOf_evFn", "WgslVerif.mem_usesOf_evFn"],
+    streams=lambda tier, seed: (
+        [("fixtures",), ("gen", "callgraph", seed, 500), ("gen", "general", seed, 300), ("gen", "textures", seed, 100),
+         ("gen", "entries", seed, 100), ("family", "diamond", 5), ("family", "fanout", 12), ("family", "chainv", 9)] if tier == "quick" else
+        [("fixtures",), ("gen", "callgraph", seed, 12000), ("gen", "general", seed, 8000), ("gen", "textures", seed, 2000),
+         ("gen", "entries", seed, 2000), ("gen", "scale", seed, 400), ("family", "diamond", 7), ("family", "fanout", 40)]),
+    opts=q_opts([0], [0, 48]),
+    rule="cases: fixtures + structured generator profiles callgraph/general/textures/entries (helper DAGs: chains, diamonds, shared helpers, "
+         "fan-out; accesses and calls in if/else, switch, loop, continuing, break-if, nested blocks, value-returning calls in expressions; "
+         "0..3 entry points per stage); non-trivial = the output has at least one binding or a push constant; distinct = distinct WGSL text",
+    trusted_base=COMMON_TRUSTED + ["CallsEarlier (callee handle < caller handle) is a hypothesis about naga's front end, evaluated (callsEarlierB) on every dumped module",
+                                   "'statically accesses' is read at naga-IR level: an Expression::GlobalVariable in the function's arena"],
+    assumptions=["stage expressions in the output are evaluated by the extractor (all(), VERTEX_FRAGMENT, A.union(B), NONE)"],
+)
+
+PROPS["C20"] = dict(
+    lean_modules=["WgslVerif.Props.C20"],
+    theorems=["WgslVerif.C20_stage_fn_visits", "WgslVerif.C20_stage_stmt_visits", "WgslVerif.Legacy.chain_blowup",
+              "WgslVerif.nodup_lt_length"],
+    streams=lambda tier, seed: (
+        [("fixtures",), ("gen", "callgraph", seed, 300), ("gen", "structs", seed, 200), ("gen", "scale", seed, 40)] if tier == "quick" else
+        [("fixtures",), ("gen", "callgraph", seed, 5000), ("gen", "structs", seed, 3000), ("gen", "scale", seed, 600), ("gen", "general", seed, 3000)]),
+    opts=q_opts([4], [4, 52]),
+    extra=extra_c20,
+    rule="cases: fixtures + generator profiles callgraph/structs/scale compared on hook visit counters (update_stages calls, statements walked, "
+         "add_types_recursive calls) + deterministic families chain / chain with value-returning calls / diamond / fan-out / nested structs at "
+         "depths up to 64, each run in its own process under a hard timeout; non-trivial = generation reached the traversals; distinct = distinct WGSL text",
+    trusted_base=COMMON_TRUSTED + ["each counted step is one BTreeMap/HashSet operation (O(log n)); wall-clock is measured, not proved",
+                                   "hook counters (cfg wgsl_to_wgpu_verif) count exactly the calls named in the model"],
+    assumptions=["wall-clock budget 5 s per call and 20 s per family case are >= 20x the observed values on the repaired tree; they never decide alone: "
+                 "the count bound is the proved criterion"],
+)
